@@ -178,9 +178,22 @@ def section_fingerprint(serif, out):
                 nan_hash = attempt(float("nan"))
         except Exception:
             pass
-    out.append("/-- `Vector._FP_P`, `Vector._FP_B` and the hash literals of `_hash_element` (0 = not found) -/")
+    # the base a Table combines its columns' fingerprints with: its own `_FP_B` when it has one, else read off the behaviour
+    # (fp of the table with columns [1] and [0] is (fp([1]) * BT + fp([0])) % P = BT % P)
+    from serif import Table
+    BT = None
+    if isinstance(Table.__dict__.get("_FP_B"), int):
+        BT = int(Table.__dict__["_FP_B"])
+    else:
+        try:
+            BT = int(Table([Vector([1]), Vector([0])]).fingerprint())
+        except Exception:
+            BT = B
+    out.append("/-- `Vector._FP_P`, `Vector._FP_B`, the base `Table` combines column fingerprints with, and the hash literals of\n"
+               "    `_hash_element` (0 = not found) -/")
     out.append(f"def FP_P : Nat := {P}")
     out.append(f"def FP_B : Nat := {B}")
+    out.append(f"def FP_BT : Nat := {BT}")
     out.append(f"def NONE_HASH : Nat := {none_hash or 0}")
     out.append(f"def NAN_HASH : Nat := {nan_hash or 0}")
     out.append("")
